@@ -69,6 +69,15 @@ def Seg.expect {V : Type} (d : Dict V) : Seg → List (Option V) → Prop
   | .chord c, outs => ∃ v, (c, v) ∈ d ∧ outs = List.replicate (c.length - 1) none ++ [some v]
   | .junk _, outs => outs = [none]
 
+/-- soundness of fires on an arbitrary key stream: `p` = the keys pending since the last fire or reset; whenever
+    a value fires, a chord bound to it is a suffix of the pending keys including the current one, and the pending
+    keys start afresh -/
+def FiresSound {V : Type} (d : Dict V) : List Nat → List Nat → List (Option V) → Prop
+  | _, [], outs => outs = []
+  | _, _ :: _, [] => False
+  | p, k :: ks, none :: outs => FiresSound d (p ++ [k]) ks outs
+  | p, k :: ks, some v :: outs => (∃ c, (c, v) ∈ d ∧ c <:+ p ++ [k]) ∧ FiresSound d [] ks outs
+
 /-- the answers to a whole stream of segments, segment by segment -/
 def expectAll {V : Type} (d : Dict V) : List Seg → List (Option V) → Prop
   | [], outs => outs = []
